@@ -84,6 +84,13 @@ func saver(args []string) {
 			} else {
 				rep.printf("loaded %d %s\n", snap.Index(got), snap.Hash(got))
 			}
+			// as the runner would: the state has not changed, the next save writes the same snapshot again
+			rep.printf("begin %d\n", i)
+			if err := st.Save(d); err != nil {
+				rep.printf("error %d %v\n", i, err)
+				continue
+			}
+			rep.printf("end %d\n", i)
 			continue
 		}
 		rep.printf("end %d\n", i)
